@@ -264,7 +264,7 @@ func (sr *SR) parseWKTSection(secName []string, secData string) error {
 	}
 	for i, o := range open {
 		c := close[i]
-		name := strings.Trim(secData[0:o], ", ")
+		name := strings.Trim(secData[0:o], ", \n\r\t")
 		if strings.Contains(name, ",") {
 			comma := strings.LastIndex(name, ",")
 			name = strings.TrimSpace(name[comma+1 : len(name)])
